@@ -89,10 +89,14 @@ static std::vector<Query> query_alphabet(const std::vector<double>& x)
 	}
 	Q.push_back({x[N - 1] + 0.005 * hr, -1});
 	Q.push_back({x[N - 1] + 0.0099 * hr, -1});
-	// drop accidental duplicates / disorder (can happen for ulp-sized intervals)
+	// drop accidental duplicates / disorder (can happen for ulp-sized intervals) and extrapolation points that rounding pushed past the 1 % tolerance
 	std::vector<Query> R;
 	for(auto& q : Q)
+	{
+		if(q.x < x[0] && !(std::fabs(q.x - x[0]) < 1e-2 * hl)) continue;
+		if(q.x > x[N - 1] && !(std::fabs(q.x - x[N - 1]) < 1e-2 * hr)) continue;
 		if(R.empty() || q.x > R.back().x) R.push_back(q);
+	}
 	return R;
 }
 
